@@ -20,3 +20,20 @@ Section Pinned.
     let '(mn, mx) := if mn >? mx then (mx, mn) else (mn, mx) in
     mkAF (nnext_dn mn) (nnext_up mx).
 End Pinned.
+
+(** round_error.rs: next_float_up(-0.0) and next_float_down(+0.0) returned +0.0 (Flocq instance) *)
+From Flocq Require Import Core BinarySingleNaN.
+Section PinnedNext.
+  Variable prec emax : Z.
+  Context (Hprec : FLX.Prec_gt_0 prec) (Hmax : Prec_lt_emax prec emax).
+  Notation bf := (binary_float prec emax).
+  Definition Bnext_up_pinned (x : bf) : bf :=
+    match x with B754_zero true => B754_zero false | _ => Bsucc x end.
+  Definition Bnext_dn_pinned (x : bf) : bf :=
+    match x with B754_zero false => B754_zero false | _ => Bpred x end.
+  (** MulAssign with the pinned stepping functions *)
+  Definition af_mul_assign_pinned (a b : AF bf) : AF bf :=
+    let NB := NumB prec emax Hprec Hmax in
+    let '(mx, mn) := max_min4 (low a * low b) (high a * low b) (low a * high b) (high a * high b) in
+    mkAF (Bnext_dn_pinned mn) (Bnext_up_pinned mx).
+End PinnedNext.
